@@ -6,8 +6,11 @@ import (
 	"go/token"
 	"go/types"
 	"math/big"
-	"sort"
+	"math/rand"
+	"os"
+	"regexp"
 	"strings"
+	"time"
 
 	"golang.org/x/tools/go/ssa"
 )
@@ -17,45 +20,115 @@ type choice struct {
 	pos  int
 }
 
+// Violation is one satisfiable negated obligation (or a feasible panic path) with its model.
 type Violation struct {
-	Label string
-	Model map[string]string
+	Label   string            `json:"label"`
+	Kind    string            `json:"kind"` // "assert" | "panic" | "unwind"
+	Finding string            `json:"finding,omitempty"` // known-finding id when the model lies inside its region
+	Panic   string            `json:"panic,omitempty"`
+	Model   map[string]string `json:"model"`
+	Picks   map[string]int    `json:"picks"`
+	Atoms   map[string]string `json:"atoms,omitempty"` // constant-string atoms: id -> string
+}
+
+// PathSample is a model of one complete path with the predicted outcome of every assertion on it
+// (used for translator validation against the native run of the same harness).
+type PathSample struct {
+	Model   map[string]string `json:"model"`
+	Picks   map[string]int    `json:"picks"`
+	Atoms   map[string]string `json:"atoms,omitempty"`
+	Events  []Event           `json:"events"`
+	Status  string            `json:"status"`
+	MapIter bool              `json:"map_iter"` // the path ranged over a Go map with >1 entry (native order uncontrolled)
+}
+
+type Event struct {
+	Kind  string `json:"kind"` // assert | reach
+	Label string `json:"label"`
+	OK    bool   `json:"ok"`
+}
+
+type assertRec struct {
+	label string
+	cond  Term
+}
+
+type panicRegion struct {
+	finding, substr string
+	region          Term
+}
+
+type Config struct {
+	Tier         int
+	MaxPaths     int
+	QueryTimeout int // ms
+	Deadline     time.Time
+	Abstract     bool // abstract mode for non-linear LegacyDec Mul/Quo
+	Unwind       int
+	Samples      int
+	Seed         int64
+	Known        map[string]bool // listed known-finding ids
+	Verbose      bool
+	Pin          map[string]string // nd values pinned (translator validation / debugging)
+	PinPicks     map[string]int
 }
 
 type Exec struct {
-	prog   *ssa.Program
-	solver *Solver // one-shot (reset per query): non-linear slices
-	inc    *Solver // incremental (push/pop): linear slices
+	prog        *ssa.Program
+	solver      *Solver // one-shot (reset per query): non-linear slices
+	inc         *Solver // incremental (push/pop): linear slices
 	incDeclared map[int]bool
 	NLQueries, LinQueries int
+	cfg         Config
+	name        string
 
 	// DFS state
 	prefix  []choice
 	forkIdx int
 
 	// per-run state
-	pc       []Term
-	auxSeq   int
-	decls    []string
-	declared map[string]bool
-	ndNames  []string
-	globals  map[*ssa.Global]*Obj
-	objSeq   int
-	depth    int
+	pc        []Term
+	auxSeq    int
+	declText  map[string]string
+	declared  map[string]bool
+	ndNames   []string
+	ndSeen    map[string]bool
+	picks     map[string]int
+	asserts   []assertRec
+	events    []Event
+	regions   []panicRegion
+	allowed   []string
+	mapIter   bool
+	globals   map[*ssa.Global]*Obj
+	objSeq    int
+	depth     int
+	symIfs    map[ssa.Instruction]int
+	base      map[*ssa.Global]*Obj
+	initDone  map[*ssa.Package]bool
+	inInit    int
+	lenientFn *ssa.Function
+	constAtoms map[string]int64
 
 	// statistics
 	Paths, Instrs   int
 	Reached         map[string]int
 	Violations      []Violation
+	violCount       map[string]int
 	Discharged      map[string]int
+	Unknown         map[string]int
 	UnknownForks    int
 	Statuses        map[string]int
 	FuncsEncoded    map[string]bool
-	maxPaths        int
 	intr            map[string]intrinsic
 	errSentinels    map[string]*ErrVal
 	unsupportedSeen map[string]int
 	lastPanic       string
+	where           string
+	Samples         []PathSample
+	TimedOut        bool
+	PathCapHit      bool
+	UnwindHits      int
+	rng             *rand.Rand
 }
 
 type intrinsic func(ex *Exec, fr *frame, call *ssa.CallCommon, args []Value) Value
@@ -67,11 +140,40 @@ type frame struct {
 	locals []Value
 }
 
-func NewExec(prog *ssa.Program, s *Solver) *Exec {
-	ex := &Exec{prog: prog, solver: s, Reached: map[string]int{}, Discharged: map[string]int{}, Statuses: map[string]int{},
-		FuncsEncoded: map[string]bool{}, maxPaths: 20000, errSentinels: map[string]*ErrVal{}, unsupportedSeen: map[string]int{}}
-	ex.intr = intrinsics()
-	return ex
+func NewExec(prog *ssa.Program, name string, cfg Config) (*Exec, error) {
+	if cfg.MaxPaths == 0 {
+		cfg.MaxPaths = 20000
+	}
+	if cfg.QueryTimeout == 0 {
+		cfg.QueryTimeout = 30000
+	}
+	if cfg.Unwind == 0 {
+		cfg.Unwind = 12
+	}
+	ex := &Exec{prog: prog, name: name, cfg: cfg, Reached: map[string]int{}, Discharged: map[string]int{}, Unknown: map[string]int{}, Statuses: map[string]int{},
+		FuncsEncoded: map[string]bool{}, errSentinels: map[string]*ErrVal{}, unsupportedSeen: map[string]int{},
+		declText: map[string]string{}, declared: map[string]bool{}, constAtoms: map[string]int64{}, violCount: map[string]int{}}
+	ex.base = map[*ssa.Global]*Obj{}
+	ex.initDone = map[*ssa.Package]bool{}
+	ex.rng = rand.New(rand.NewSource(cfg.Seed + 1))
+	ex.intr = intrinsicTable()
+	bin := os.Getenv("VERIF_SOLVER")
+	if bin == "" {
+		bin = "z3-new"
+	}
+	var err error
+	if ex.solver, err = NewSolver(bin, "-in"); err != nil {
+		return nil, err
+	}
+	if ex.inc, err = NewSolver(bin, "-in"); err != nil {
+		return nil, err
+	}
+	return ex, nil
+}
+
+func (ex *Exec) Close() {
+	ex.solver.Close()
+	ex.inc.Close()
 }
 
 // Explore runs fn over all paths.
@@ -80,14 +182,22 @@ func (ex *Exec) Explore(fn *ssa.Function) {
 	for {
 		ex.runOnce(fn)
 		ex.Paths++
-		if ex.Paths%10 == 0 {
-			fmt.Printf("... %d paths, %d queries, statuses %v\n", ex.Paths, ex.solver.Queries, ex.Statuses)
+		if ex.cfg.Verbose && ex.Paths%50 == 0 {
+			fmt.Fprintf(os.Stderr, "[%s] ... %d paths, %d queries, statuses %v\n", ex.name, ex.Paths, ex.solver.Queries+ex.inc.Queries, ex.Statuses)
 		}
 		// backtrack
 		for len(ex.prefix) > 0 && ex.prefix[len(ex.prefix)-1].pos == len(ex.prefix[len(ex.prefix)-1].alts)-1 {
 			ex.prefix = ex.prefix[:len(ex.prefix)-1]
 		}
-		if len(ex.prefix) == 0 || ex.Paths >= ex.maxPaths {
+		if len(ex.prefix) == 0 {
+			return
+		}
+		if ex.Paths >= ex.cfg.MaxPaths {
+			ex.PathCapHit = true
+			return
+		}
+		if !ex.cfg.Deadline.IsZero() && time.Now().After(ex.cfg.Deadline) {
+			ex.TimedOut = true
 			return
 		}
 		ex.prefix[len(ex.prefix)-1].pos++
@@ -96,64 +206,185 @@ func (ex *Exec) Explore(fn *ssa.Function) {
 
 func (ex *Exec) runOnce(fn *ssa.Function) {
 	ex.forkIdx = 0
-	if ex.declared == nil {
-		ex.declared = map[string]bool{}
-	}
 	ex.ndNames = nil
+	ex.ndSeen = map[string]bool{}
+	ex.picks = map[string]int{}
+	ex.asserts = nil
+	ex.events = nil
+	ex.regions = nil
+	ex.allowed = nil
+	ex.mapIter = false
 	ex.globals = map[*ssa.Global]*Obj{}
+	ex.symIfs = map[ssa.Instruction]int{}
 	ex.objSeq = 0
 	ex.auxSeq = 0
+	ex.depth = 0
 	ex.pc = ex.pc[:0]
 	status := "ok"
+	var pval string
 	func() {
 		defer func() {
 			if r := recover(); r != nil {
 				switch v := r.(type) {
 				case goPanic:
-					status = fmt.Sprintf("panic: %v", v.val)
+					status = "panic"
+					pval = fmt.Sprint(v.val)
 				case pathEnd:
 					status = "end: " + v.why
 				case unsupported:
-					status = "UNSUPPORTED: " + v.what
+					status = "unsupported"
 					ex.unsupportedSeen[v.what]++
 				default:
-					panic(r)
+					if os.Getenv("VERIF_CRASH") != "" {
+						panic(r)
+					}
+					status = "unsupported"
+					ex.unsupportedSeen["internal: "+fmt.Sprint(r)+" @ "+ex.where]++
 				}
 			}
 		}()
 		ex.call(fn, nil, nil)
 	}()
-	if strings.HasPrefix(status, "panic") {
-		ex.Statuses["panic"]++
-		ex.lastPanic = status
-	} else if strings.HasPrefix(status, "UNSUPPORTED") {
-		ex.Statuses["unsupported"]++
-	} else {
-		ex.Statuses[status]++
+	if status == "panic" {
+		ex.lastPanic = pval
+		ex.onPanicPath(pval)
+	}
+	ex.Statuses[status]++
+	if status == "ok" || status == "panic" {
+		ex.maybeSample(status, pval)
 	}
 }
 
-var _ = sort.Ints
+// onPanicPath: every harness carries an implicit no-panic obligation.
+func (ex *Exec) onPanicPath(pval string) {
+	for _, a := range ex.allowed {
+		if strings.Contains(pval, a) {
+			ex.Statuses["panic(allowed)"]++
+			return
+		}
+	}
+	label := "no-panic: " + normPanic(pval)
+	for _, pr := range ex.regions {
+		if !strings.Contains(pval, pr.substr) {
+			continue
+		}
+		// outside the region?
+		if r := ex.queryAll(Not(pr.region)); r == "sat" {
+			ex.recordViolation(label, "panic", "", pval)
+		} else if r != "unsat" {
+			ex.Unknown[label]++
+		}
+		if r := ex.queryAll(pr.region); r == "sat" {
+			ex.recordViolation(label, "panic", pr.finding, pval)
+		}
+		return
+	}
+	if r := ex.queryAll(BoolC(true)); r == "sat" {
+		ex.recordViolation(label, "panic", "", pval)
+	} else if r != "unsat" {
+		ex.Unknown[label]++
+	}
+}
 
-var declText = map[string]string{} // constant/function name -> declaration
+var digitsRe = regexp.MustCompile(`[0-9]+`)
+
+func normPanic(s string) string {
+	s = digitsRe.ReplaceAllString(s, "N")
+	if len(s) > 80 {
+		s = s[:80]
+	}
+	return s
+}
+
+// recordViolation must be called right after a sat answer of ex.solver on the full path condition.
+func (ex *Exec) recordViolation(label, kind, finding, pval string) {
+	key := label + "|" + finding
+	ex.violCount[key]++
+	if ex.violCount[key] > 3 {
+		return
+	}
+	v := Violation{Label: label, Kind: kind, Finding: finding, Panic: pval, Model: ex.solver.GetValues(ex.ndNames), Picks: copyPicks(ex.picks), Atoms: ex.atomTable()}
+	ex.Violations = append(ex.Violations, v)
+}
+
+func copyPicks(m map[string]int) map[string]int {
+	o := map[string]int{}
+	for k, v := range m {
+		o[k] = v
+	}
+	return o
+}
+
+func (ex *Exec) atomTable() map[string]string {
+	o := map[string]string{}
+	for s, id := range ex.constAtoms {
+		o[fmt.Sprint(id)] = s
+	}
+	return o
+}
+
+// maybeSample draws a model of the finished path and evaluates every assertion under it.
+func (ex *Exec) maybeSample(status, pval string) {
+	if ex.cfg.Samples == 0 {
+		return
+	}
+	// reservoir: always the first few, then with decreasing probability
+	if len(ex.Samples) >= ex.cfg.Samples {
+		if ex.rng.Intn(ex.Paths+1) >= ex.cfg.Samples {
+			return
+		}
+	}
+	if ex.queryAll(BoolC(true)) != "sat" {
+		return
+	}
+	model := ex.solver.GetValues(ex.ndNames)
+	var evs []Event
+	ai := 0
+	for _, e := range ex.events {
+		if e.Kind == "assert" {
+			a := ex.asserts[ai]
+			ai++
+			ok := true
+			if a.cond.Const {
+				ok = a.cond.B
+			} else {
+				v := ex.solver.GetValueTerm(a.cond.S)
+				ok = v == "true"
+			}
+			evs = append(evs, Event{"assert", e.Label, ok})
+		} else {
+			evs = append(evs, e)
+		}
+	}
+	st := status
+	if status == "panic" {
+		st = "panic: " + pval
+	}
+	ps := PathSample{Model: model, Picks: copyPicks(ex.picks), Atoms: ex.atomTable(), Events: evs, Status: st, MapIter: ex.mapIter}
+	if len(ex.Samples) < ex.cfg.Samples {
+		ex.Samples = append(ex.Samples, ps)
+	} else {
+		ex.Samples[ex.rng.Intn(len(ex.Samples))] = ps
+	}
+}
 
 func (ex *Exec) declare(name, sortName string) {
 	if !ex.declared[name] {
 		ex.declared[name] = true
-		declText[name] = fmt.Sprintf("(declare-const %s %s)", name, sortName)
+		ex.declText[name] = fmt.Sprintf("(declare-const %s %s)", name, sortName)
 	}
 }
 
 // begin starts a fresh one-shot query context containing the given constraints.
 func (ex *Exec) begin(cs []Term, q Term) {
 	ex.solver.Send("(reset)")
-	ex.solver.Send("(set-option :timeout 30000)")
+	ex.solver.Send(fmt.Sprintf("(set-option :timeout %d)", ex.cfg.QueryTimeout))
 	seen := map[int]bool{}
 	emit := func(t Term) {
 		for _, v := range t.V {
 			if !seen[v] {
 				seen[v] = true
-				if d, ok := declText[varNames[v]]; ok {
+				if d, ok := ex.declText[varName(v)]; ok {
 					ex.solver.Send(d)
 				}
 			}
@@ -216,14 +447,14 @@ func (ex *Exec) pcSlice(q Term) []Term {
 	return out
 }
 
-// query checks satisfiability of (relevant slice of path condition) AND q; leaves the scope open if keep.
+// query checks satisfiability of (relevant slice of path condition) AND q.
 func (ex *Exec) query(q Term, keep bool) string {
 	sl := ex.pcSlice(q)
 	nl := q.NL
 	for _, c := range sl {
 		nl = nl || c.NL
 	}
-	if nl || ex.inc == nil {
+	if nl || os.Getenv("VERIF_NOINC") != "" {
 		ex.NLQueries++
 		ex.begin(sl, q)
 		return ex.solver.Check()
@@ -231,13 +462,13 @@ func (ex *Exec) query(q Term, keep bool) string {
 	ex.LinQueries++
 	if ex.incDeclared == nil {
 		ex.incDeclared = map[int]bool{}
-		ex.inc.Send("(set-option :timeout 30000)")
+		ex.inc.Send(fmt.Sprintf("(set-option :timeout %d)", ex.cfg.QueryTimeout))
 	}
 	emit := func(t Term) {
 		for _, v := range t.V {
 			if !ex.incDeclared[v] {
 				ex.incDeclared[v] = true
-				if d, ok := declText[varNames[v]]; ok {
+				if d, ok := ex.declText[varName(v)]; ok {
 					ex.inc.Send(d)
 				}
 			}
@@ -254,6 +485,12 @@ func (ex *Exec) query(q Term, keep bool) string {
 	ex.inc.Send("(assert " + q.S + ")")
 	r := ex.inc.Check()
 	ex.inc.Send("(pop 1)")
+	if r == "unknown" {
+		// second opinion from the default tactic
+		ex.NLQueries++
+		ex.begin(sl, q)
+		return ex.solver.Check()
+	}
 	return r
 }
 
@@ -273,6 +510,9 @@ func (ex *Exec) aux(prefix string) Term {
 
 // choose picks one alternative among mutually exclusive conditions.
 func (ex *Exec) choose(conds []Term) int {
+	if ex.inInit > 0 {
+		panic(unsupported{"symbolic branch inside a package initialiser"})
+	}
 	k := ex.forkIdx
 	ex.forkIdx++
 	if k < len(ex.prefix) {
@@ -286,6 +526,12 @@ func (ex *Exec) choose(conds []Term) int {
 			if c.B {
 				feas = append(feas, i)
 			}
+			continue
+		}
+		if len(conds) == 2 && i == 1 && len(feas) == 0 && !conds[0].Const {
+			// conds are complementary and the path condition is satisfiable: the first being infeasible
+			// makes the second feasible without asking
+			feas = append(feas, i)
 			continue
 		}
 		r := ex.query(c, false)
@@ -347,10 +593,13 @@ func (ex *Exec) call(fn *ssa.Function, args []Value, bind []Value) Value {
 		panic(unsupported{"external function without body: " + fn.String()})
 	}
 	ex.depth++
-	if ex.depth > 64 {
+	if ex.depth > 80 {
 		panic(unsupported{"call depth"})
 	}
 	defer func() { ex.depth-- }()
+	if ex.lenientFn == fn {
+		return ex.callLenient(fn)
+	}
 	ex.FuncsEncoded[fn.String()] = true
 	fr := &frame{fn: fn, env: map[ssa.Value]Value{}}
 	for i, p := range fn.Params {
@@ -384,11 +633,22 @@ func (ex *Exec) call(fn *ssa.Function, args []Value, bind []Value) Value {
 		}
 		for _, in := range blk.Instrs {
 			ex.Instrs++
+			if ex.Instrs&0x3fff == 0 && !ex.cfg.Deadline.IsZero() && time.Now().After(ex.cfg.Deadline) {
+				ex.TimedOut = true
+				panic(pathEnd{"deadline"})
+			}
 			switch v := in.(type) {
 			case *ssa.Phi:
 				continue
 			case *ssa.If:
 				c := ex.val(fr, v.Cond).(VBool)
+				if !c.T.Const {
+					ex.symIfs[v]++
+					if ex.symIfs[v] > ex.cfg.Unwind*4 {
+						ex.UnwindHits++
+						panic(pathEnd{"unwind"})
+					}
+				}
 				if ex.decide(c.T) {
 					next = blk.Succs[0]
 				} else {
@@ -434,6 +694,88 @@ func (ex *Exec) call(fn *ssa.Function, args []Value, bind []Value) Value {
 		}
 		prev, blk = blk, next
 	}
+}
+
+// callLenient executes a package initialiser: straight-line, every instruction that cannot be evaluated
+// yields poison instead of aborting.
+func (ex *Exec) callLenient(fn *ssa.Function) Value {
+	fr := &frame{fn: fn, env: map[ssa.Value]Value{}}
+	blk := fn.Blocks[0]
+	var prev *ssa.BasicBlock
+	try := func(f func()) (ok bool) {
+		saved := ex.lenientFn
+		ex.lenientFn = nil
+		d := ex.depth
+		defer func() {
+			ex.lenientFn = saved
+			ex.depth = d
+			if r := recover(); r != nil {
+				ok = false
+			}
+		}()
+		f()
+		return true
+	}
+	for steps := 0; steps < 100000; steps++ {
+		var next *ssa.BasicBlock
+		for _, in := range blk.Instrs {
+			if p, ok := in.(*ssa.Phi); ok {
+				for i, pred := range blk.Preds {
+					if pred == prev {
+						v := p.Edges[i]
+						if !try(func() { fr.env[p] = ex.val(fr, v) }) {
+							fr.env[p] = poison
+						}
+					}
+				}
+				continue
+			}
+			switch v := in.(type) {
+			case *ssa.If:
+				var c VBool
+				if !try(func() { c = ex.val(fr, v.Cond).(VBool) }) || !c.T.Const {
+					return nil // cannot continue this initialiser
+				}
+				if c.T.B {
+					next = blk.Succs[0]
+				} else {
+					next = blk.Succs[1]
+				}
+			case *ssa.Jump:
+				next = blk.Succs[0]
+			case *ssa.Return:
+				return nil
+			case *ssa.Panic:
+				return nil
+			case *ssa.Store:
+				if g, ok := v.Addr.(*ssa.Global); ok && g.Name() == "init$guard" {
+					continue
+				}
+				if !try(func() { ex.val(fr, v.Addr).(VPtr).store(ex.val(fr, v.Val)) }) {
+					try(func() { ex.val(fr, v.Addr).(VPtr).store(poison) })
+				}
+			case *ssa.MapUpdate:
+				try(func() { ex.mapUpdate(ex.val(fr, v.Map).(VMap), ex.val(fr, v.Key), ex.val(fr, v.Value)) })
+			case *ssa.Call:
+				if callee := v.Call.StaticCallee(); callee != nil && callee.Synthetic == "package initializer" {
+					continue // other packages are initialised lazily on first access
+				}
+				if !try(func() { fr.env[v] = ex.evalInstr(fr, v) }) {
+					fr.env[v] = poison
+				}
+			case *ssa.DebugRef, *ssa.RunDefers, *ssa.Defer:
+			case ssa.Value:
+				if !try(func() { fr.env[v] = ex.evalInstr(fr, v) }) {
+					fr.env[v] = poison
+				}
+			}
+		}
+		if next == nil {
+			return nil
+		}
+		prev, blk = blk, next
+	}
+	return nil
 }
 
 func (ex *Exec) runDefers(fr *frame) {
@@ -502,7 +844,7 @@ func (ex *Exec) callFn(fr *frame, cc *ssa.CallCommon, fn *ssa.Function, args []V
 	if in, ok := ex.intr[key]; ok {
 		return in(ex, fr, cc, args)
 	}
-	if strings.HasPrefix(fn.Name(), "nd") && inModule(fn) {
+	if (strings.HasPrefix(fn.Name(), "nd") || fn.Name() == "nm") && inModule(fn) {
 		base := fn.Name()
 		if o := fn.Origin(); o != nil {
 			base = o.Name()
@@ -538,9 +880,6 @@ func inModule(f *ssa.Function) bool {
 	return false
 }
 
-func allowExternal(key string) bool {
-	return allowList[key]
-}
 
 // ---------------------------------------------------------------- values
 
@@ -563,22 +902,73 @@ func (ex *Exec) val(fr *frame, v ssa.Value) Value {
 }
 
 func (ex *Exec) global(g *ssa.Global) *Obj {
+	if ex.inInit > 0 {
+		return ex.baseGlobal(g)
+	}
 	if o, ok := ex.globals[g]; ok {
 		return o
 	}
-	et := g.Type().(*types.Pointer).Elem()
-	var v Value
-	name := g.Pkg.Pkg.Path() + "." + g.Name()
-	if gi, ok := globalInit[name]; ok {
-		v = gi(ex)
-	} else if types.Implements(et, errorIface) || types.Identical(et, errorIface.Underlying()) || isErrorType(et) {
-		v = VIface{Typ: errMarkerType, V: VOpaque{Kind: "error", Data: ex.sentinel(name)}}
-	} else {
-		v = ex.zero(et)
-	}
-	o := ex.newObj(v)
+	ex.initPkg(g.Pkg)
+	base := ex.baseGlobal(g)
+	o := ex.newObj(base.V) // per-path copy: assignments to a global never leak into other paths
 	ex.globals[g] = o
 	return o
+}
+
+func (ex *Exec) baseGlobal(g *ssa.Global) *Obj {
+	if o, ok := ex.base[g]; ok {
+		return o
+	}
+	if ex.inInit > 0 {
+		ex.initPkg(g.Pkg)
+		if o, ok := ex.base[g]; ok {
+			return o
+		}
+	}
+	et := g.Type().(*types.Pointer).Elem()
+	var v Value
+	func() {
+		defer func() {
+			if r := recover(); r != nil {
+				v = poison
+			}
+		}()
+		v = ex.zero(et)
+	}()
+	o := &Obj{V: v, ID: -1}
+	ex.base[g] = o
+	return o
+}
+
+var poison = VOpaque{Kind: "poison"}
+
+// initPkg runs the package initialiser once per Exec, leniently: an initialiser expression the engine cannot
+// evaluate leaves its variable poisoned (any later use ends that path UNSUPPORTED), never wrong.
+func (ex *Exec) initPkg(p *ssa.Package) {
+	if p == nil || ex.initDone[p] {
+		return
+	}
+	ex.initDone[p] = true
+	fn := p.Func("init")
+	if fn == nil || fn.Blocks == nil {
+		return
+	}
+	ex.inInit++
+	savedLenient := ex.lenientFn
+	ex.lenientFn = fn
+	savedDepth := ex.depth
+	func() {
+		defer func() {
+			if r := recover(); r != nil {
+				// abort of this initialiser: remaining globals keep their zero/poison values
+				_ = r
+			}
+		}()
+		ex.call(fn, nil, nil)
+	}()
+	ex.depth = savedDepth
+	ex.lenientFn = savedLenient
+	ex.inInit--
 }
 
 var errorIface = types.Universe.Lookup("error").Type().Underlying().(*types.Interface)
@@ -651,7 +1041,13 @@ func intRange(b *types.Basic) (*big.Int, *big.Int) {
 }
 
 // wrap reduces t into the range of machine type b (two's complement).
-func wrap(t Term, b *types.Basic, cheap bool) Term {
+func (ex *Exec) wrap(t Term, b *types.Basic, cheap bool) Term {
+	if b == nil {
+		return t
+	}
+	if !t.Const && len(t.S) > 40 {
+		t = ex.nameT(t)
+	}
 	lo, hi := intRange(b)
 	size := new(big.Int).Add(new(big.Int).Sub(hi, lo), big.NewInt(1))
 	if t.Const {
@@ -662,7 +1058,8 @@ func wrap(t Term, b *types.Basic, cheap bool) Term {
 	if cheap { // result of + or - on in-range operands: at most one wrap
 		return Ite(Gt(t, IntB(hi)), Sub(t, IntB(size)), Ite(Lt(t, IntB(lo)), Add(t, IntB(size)), t))
 	}
-	return Add(EMod(Sub(t, IntB(lo)), IntB(size)), IntB(lo))
+	_, r := ex.divModPos(Sub(t, IntB(lo)), size)
+	return Add(r, IntB(lo))
 }
 
 func basicOf(t types.Type) *types.Basic {
@@ -684,7 +1081,7 @@ func (ex *Exec) evalInstr(fr *frame, v ssa.Value) Value {
 		case token.NOT:
 			return VBool{Not(a.(VBool).T)}
 		case token.SUB:
-			return VInt{wrap(Neg(a.(VInt).T), basicOf(x.Type()), true)}
+			return VInt{ex.wrap(Neg(a.(VInt).T), basicOf(x.Type()), true)}
 		}
 		panic(unsupported{"unop " + x.Op.String()})
 	case *ssa.Call:
@@ -872,7 +1269,7 @@ func (ex *Exec) slice(fr *frame, x *ssa.Slice) Value {
 func (ex *Exec) convert(v Value, from, to types.Type) Value {
 	fb, tb := basicOf(from), basicOf(to)
 	if fb != nil && tb != nil && fb.Info()&types.IsInteger != 0 && tb.Info()&types.IsInteger != 0 {
-		return VInt{wrap(v.(VInt).T, tb, false)}
+		return VInt{ex.wrap(v.(VInt).T, tb, false)}
 	}
 	if _, ok := v.(VStr); ok {
 		return v // string <-> []byte: same atom / same bytes
@@ -887,30 +1284,31 @@ func (ex *Exec) binop(op token.Token, a, b Value, opType, resType types.Type) Va
 		bt := basicOf(resType)
 		switch op {
 		case token.ADD:
-			return VInt{wrap(Add(x.T, y.T), bt, true)}
+			return VInt{ex.wrap(Add(x.T, y.T), bt, true)}
 		case token.SUB:
-			return VInt{wrap(Sub(x.T, y.T), bt, true)}
+			return VInt{ex.wrap(Sub(x.T, y.T), bt, true)}
 		case token.MUL:
-			return VInt{wrap(Mul(x.T, y.T), bt, false)}
+			return VInt{ex.wrap(Mul(x.T, y.T), bt, false)}
 		case token.QUO:
 			if !ex.decide(Not(Eq(y.T, IntC(0)))) {
 				panic(goPanic{"integer divide by zero"})
 			}
-			return VInt{wrap(TDiv(x.T, y.T), bt, true)}
+			return VInt{ex.wrap(ex.truncDivX(x.T, y.T), bt, true)}
 		case token.REM:
 			if !ex.decide(Not(Eq(y.T, IntC(0)))) {
 				panic(goPanic{"integer divide by zero"})
 			}
-			return VInt{TRem(x.T, y.T)}
+			return VInt{ex.truncRemX(ex.nameT(x.T), ex.nameT(y.T))}
 		case token.SHR, token.SHL:
 			if !y.T.Const {
 				panic(unsupported{"shift by symbolic amount"})
 			}
 			p := IntB(new(big.Int).Lsh(big.NewInt(1), uint(y.T.I.Int64())))
 			if op == token.SHL {
-				return VInt{wrap(Mul(x.T, p), bt, false)}
+				return VInt{ex.wrap(Mul(x.T, p), bt, false)}
 			}
-			return VInt{EDiv(x.T, p)} // floor division = arithmetic shift for both signs
+			q, _ := ex.divModPos(x.T, p.I) // floor division = arithmetic shift for both signs
+			return VInt{q}
 		case token.LSS:
 			return VBool{Lt(x.T, y.T)}
 		case token.LEQ:
@@ -995,6 +1393,17 @@ func (ex *Exec) binop(op token.Token, a, b Value, opType, resType types.Type) Va
 }
 
 func (ex *Exec) strEq(x, y VStr) Term {
+	if x.Atom != nil && y.Atom != nil {
+		if x.N > 0 && y.N > 0 && x.N != y.N {
+			return BoolC(false)
+		}
+		if x.Hexed != y.Hexed {
+			panic(unsupported{"equality between hex text and raw atom"})
+		}
+	}
+	if x.Atom == nil && y.Atom == nil && (x.Conc == nil || y.Conc == nil) {
+		return ex.bytesEq(x, y)
+	}
 	switch {
 	case x.Conc != nil && y.Conc != nil:
 		return BoolC(*x.Conc == *y.Conc)
@@ -1008,14 +1417,12 @@ func (ex *Exec) strEq(x, y VStr) Term {
 	panic(unsupported{"string equality of mixed kinds"})
 }
 
-var constAtoms = map[string]int64{}
-
 // concrete strings get negative ids; symbolic atoms are constrained >= 0.
 func (ex *Exec) atomOfConst(s string) Term {
-	id, ok := constAtoms[s]
+	id, ok := ex.constAtoms[s]
 	if !ok {
-		id = -int64(len(constAtoms)) - 1
-		constAtoms[s] = id
+		id = -int64(len(ex.constAtoms)) - 1
+		ex.constAtoms[s] = id
 	}
 	return IntC(id)
 }
@@ -1144,6 +1551,9 @@ func (ex *Exec) rangeInit(v Value) Value {
 
 // chooseFree forks n ways without adding constraints.
 func (ex *Exec) chooseFree(n int) int {
+	if ex.inInit > 0 {
+		panic(unsupported{"free choice inside a package initialiser"})
+	}
 	k := ex.forkIdx
 	ex.forkIdx++
 	if k < len(ex.prefix) {
@@ -1155,6 +1565,17 @@ func (ex *Exec) chooseFree(n int) int {
 	}
 	ex.prefix = append(ex.prefix, choice{alts: alts})
 	return 0
+}
+
+// pick is a named free choice (recorded in models so that the native replay takes the same one).
+func (ex *Exec) pick(name string, n int) int {
+	if p, ok := ex.cfg.PinPicks[name]; ok {
+		ex.picks[name] = p
+		return p
+	}
+	c := ex.chooseFree(n)
+	ex.picks[name] = c
+	return c
 }
 
 func (ex *Exec) rangeNext(it VOpaque, x *ssa.Next) Value {
@@ -1194,6 +1615,9 @@ func (ex *Exec) builtin(fr *frame, b *ssa.Builtin, cc *ssa.CallCommon, args []Va
 			}
 			if x.Bytes != nil {
 				return VInt{IntC(int64(len(x.Bytes)))}
+			}
+			if x.Atom != nil && x.N > 0 {
+				return VInt{IntC(int64(x.N))}
 			}
 		case VMap:
 			if x.M == nil {
